@@ -511,6 +511,12 @@ class FrameExecutor(AlgoExecutor):
             if isinstance(dflt, ListLV):
                 d = dflt.ls
                 return [(st, ListLV(LabelSet(lambda x: z3.If(has, lst_mem(tok, x), _zbb(d.mem(x))), lambda x: lst_ord(tok, x), "%s.get(%r)" % (t.which, key))))]
+            # no default (None) or a scalar default: the stored value when the key is present, the default otherwise
+            if dflt is None or dflt is NONEV or isinstance(dflt, (bool, int, float, Num)):
+                out = []
+                for (s, b) in self.branch(st, has):
+                    out.append((s, self.temp_value(s, t, key)) if b else (s, NONEV if dflt is None else dflt))
+                return out
             self._undecided("temp.get default")
         if isinstance(f, BoundFn) and f.kind == "set_union":
             a, b = pos[0].ls, pos[1].ls
@@ -558,6 +564,10 @@ class FrameExecutor(AlgoExecutor):
             v = pos[0]
             if isinstance(v, (IndexLV, ListLV)):
                 return [(st, ListLV(v.ls))]
+        if name == "len" and len(pos) == 1 and type(pos[0]).__name__ == "DictObjV":
+            n = Num(dlen_f(pos[0].ref), False, True)       # number of keys (enumeration facts: dict_enum_facts)
+            st.assume(n.r >= 0)
+            return [(st, n)]
         if name == "len" and len(pos) == 1 and isinstance(pos[0], (RowV, ListLV, IndexLV)):
             ls = pos[0].ls
             if ls.n is None:
